@@ -22,6 +22,16 @@ JOBS = 4
 for a in sys.argv[1:]:
     if a.startswith('-j'):
         JOBS = max(1, int(a[2:] or 4))
+# behaviour-preserving refactors (refactors/<name>/): every check must stay SILENT on them
+ALL = ['C%02d' % i for i in range(1, 21)]
+if not props or '--refactors' in sys.argv:
+    for name in sorted(os.listdir(os.path.join(VERIF, 'refactors'))) if os.path.isdir(os.path.join(VERIF, 'refactors')) else []:
+        d = os.path.join(VERIF, 'refactors', name)
+        mp = os.path.join(d, 'meta.json')
+        if os.path.exists(mp) and os.path.exists(os.path.join(d, 'patch.diff')):
+            m = json.load(open(mp))
+            m['kind'] = 'refactor'
+            seeds.append((name, d, m))
 base = tempfile.mkdtemp(prefix='pvx-selftest-', dir=os.environ.get('PVX_SCRATCH', '/var/tmp'))
 ok = True
 results = []
@@ -59,6 +69,24 @@ def worker(i, q):
                 print('%-28s %-8s expected=%s' % (name, 'NO-APPLY', 'caught' if expected else 'missed'), flush=True)
             subprocess.run('git reset -q; git checkout -q -- .; git clean -fdq', shell=True, cwd=scratch)
             continue
+        if m.get('kind') == 'refactor':
+            alarms = {}
+            for pr in ALL:
+                c = subprocess.run([os.path.join(VERIF, 'check'), pr, '--tier', 'quick'], env=env, stdout=subprocess.PIPE, stderr=subprocess.STDOUT, text=True)
+                if 'VIOLATION property=' in c.stdout or c.returncode != 0:
+                    alarms[pr] = sorted(set('%s %s' % x for x in re.findall(r'^\s+(C\d+\.R\w+) (\S+)', c.stdout, re.M))) or ['exit %d' % c.returncode]
+            with lock:
+                silent = not alarms
+                if UPDATE:
+                    mm = json.load(open(os.path.join(d, 'meta.json')))
+                    mm.setdefault('check_result', {}).update({'applies': True, 'silent': silent, 'alarms': alarms})
+                    json.dump(mm, open(os.path.join(d, 'meta.json'), 'w'), indent=1)
+                results.append((name, 'silent' if silent else 'FALSE-ALARM', True))
+                print('%-28s %-11s expected=silent %s' % (name, 'silent' if silent else 'FALSE-ALARM', str(alarms)[:160] if alarms else ''), flush=True)
+                if not silent:
+                    ok = False
+            subprocess.run('git reset -q; git checkout -q -- .; git clean -fdq', shell=True, cwd=scratch)
+            continue
         c = subprocess.run([os.path.join(VERIF, 'check'), m['property'], '--tier', 'quick'], env=env, stdout=subprocess.PIPE, stderr=subprocess.STDOUT, text=True)
         fired = [l.strip() for l in c.stdout.splitlines() if l.startswith('  C')]
         caught = 'VIOLATION property=' in c.stdout
@@ -93,5 +121,5 @@ finally:
     shutil.rmtree(base, ignore_errors=True)
 results.sort()
 json.dump([{'seed': n, 'result': r, 'expected_caught': e} for n, r, e in results], open(os.path.join(VERIF, '.cache', 'selftest-last.json'), 'w'), indent=1)
-print('selftest: %d seeds, %d caught, %d expected-caught missed' % (len(results), sum(1 for _, r, _ in results if r == 'caught'), sum(1 for _, r, e in results if e and r != 'caught')))
+print('selftest: %d seeds, %d caught, %d expected-caught missed; %d refactors, %d silent' % (sum(1 for _, r, _ in results if r in ('caught', 'missed', 'patch-does-not-apply')), sum(1 for _, r, _ in results if r == 'caught'), sum(1 for _, r, e in results if e and r in ('missed', 'patch-does-not-apply')), sum(1 for _, r, _ in results if r in ('silent', 'FALSE-ALARM')), sum(1 for _, r, _ in results if r == 'silent')))
 sys.exit(0 if ok else 1)
